@@ -8,6 +8,7 @@ from .. import refmodel as rm
 from .. import spec as sp
 
 ID = 'C07'
+ANCHOR_FILES = ['solver/brute_force_solver.py', 'solver/model.py']
 LEVEL = 'exploration'
 NEEDS_DEPS = True
 RULE = ('random specs with <=5 students x <=5 projects (every relation between #students and max rank, lower quotas, zero '
